@@ -3,7 +3,9 @@ package wasp
 import (
 	"time"
 
+	"github.com/vx-labs/mqtt-protocol/packet"
 	"github.com/vx-labs/wasp/v4/wasp/distributed"
+	waspsessions "github.com/vx-labs/wasp/v4/wasp/sessions"
 )
 
 type NodeMemberManager interface {
@@ -32,7 +34,15 @@ func (n *nodeMemberManager) NotifyGossipLeave(id uint64) {
 	for _, session := range sessions {
 		lwt := session.LWT
 		if lwt != nil {
-			n.log.Append(lwt)
+			header := lwt.Header
+			if header == nil {
+				header = &packet.Header{}
+			}
+			n.log.Append(&packet.Publish{
+				Header:  header,
+				Topic:   waspsessions.PrefixMountPoint(session.MountPoint, lwt.Topic),
+				Payload: lwt.Payload,
+			})
 		}
 	}
 	go func() {
